@@ -1,4 +1,5 @@
 import GrVerif.Proofs.VmRun
+import GrVerif.Proofs.LoadDefined
 /-!
 # C07 — the stack machine follows the opcode spec; both interpreter builds agree
 
@@ -140,6 +141,30 @@ theorem run_eq_spec (drv : Driver) (p : Program) (hbytes : Bytes p.data) (o : In
       simp only [c0, hlen, if_true, if_false]
     | fault w s => rw [hrl] at hm; exact absurd hm (by simp [EndMatches])
     | ranOff s => rw [hrl] at hm; exact absurd hm (by simp [EndMatches])
+
+/-- **load_defined**: what the loader accepts, the specification evaluates – the loader's stack-depth bookkeeping is the length of the
+specification's stack at every instruction, every opcode finds its operand bytes, and a return is reached before the instructions
+run out -/
+theorem load_defined (constraint : Bool) (bytes : List Nat) (p : Program) (h : load constraint bytes = (.loaded, some p)) :
+    Spec.Vm.eval STACK_MAX p.instrs p.data [] ≠ .stuck :=
+  Vm.load_defined constraint bytes p h STACK_MAX
+
+/-- **the property as stated**: for every program over the scalar opcodes that the bytecode loader accepts (any bytes, as action or
+constraint code), `Machine::run` of either interpreter build returns the value and status the opcode specification gives -/
+theorem accepted_programs_run_as_specified (drv : Driver) (constraint : Bool) (bytes : List Nat) (hb : ∀ b ∈ bytes, b < 256) (p : Program)
+    (h : load constraint bytes = (.loaded, some p)) :
+    ∃ o, specOutcome (Spec.Vm.eval STACK_MAX p.instrs p.data []) = some o ∧ run drv p = .ok o := by
+  have hd := load_defined constraint bytes p h
+  cases hr : Spec.Vm.eval STACK_MAX p.instrs p.data [] with
+  | stuck => exact absurd hr hd
+  | returned v below =>
+    obtain ⟨o, ho⟩ : ∃ o, specOutcome (Spec.Vm.Result.returned v below) = some o := by cases below <;> exact ⟨_, rfl⟩
+    exact ⟨o, ho, run_eq_spec drv p (Vm.load_data_bytes constraint bytes p h hb) o (by rw [hr]; exact ho)⟩
+  | died st =>
+    obtain ⟨o, ho⟩ : ∃ o, specOutcome (Spec.Vm.Result.died st) = some o := by cases st <;> exact ⟨_, rfl⟩
+    exact ⟨o, ho, run_eq_spec drv p (Vm.load_data_bytes constraint bytes p h hb) o (by rw [hr]; exact ho)⟩
+  | overflow st =>
+    exact ⟨_, rfl, run_eq_spec drv p (Vm.load_data_bytes constraint bytes p h hb) _ (by rw [hr]; rfl)⟩
 
 /-- **drivers_agree**: the direct-threaded and the call-threaded `Machine::run` are the same function of the program
 (both `ENDOP` macros extract to the same continuation test; if they ever differ this proof has real content or fails). -/
